@@ -1031,17 +1031,24 @@ class FnAnalysis:
         work = list(reversed(leaves))
         n = 0
         while work:
-            t, st = work.pop()
+            item = work.pop()
+            t, st, extra = item[0], item[1], tuple(item[2:])
             n += 1
             if n > limit * 4:
                 return None
             facts = st.facts
             t = self.simp(t, facts)
+            if t.has_tree() or any(isinstance(y, Term) and y.has_tree() for f in facts if f[0] != "sel" for y in f[1:]):
+                # express every fact in the resolved merge values (`sel`), so that equal conditions are the same term
+                facts = self._rewrite_facts(frozenset((f[0],) + tuple(self.simp(y, facts) if isinstance(y, Term) else y for y in f[1:]) if f[0] != "sel" else f
+                                                      for f in facts), {}, force=True)
+                if facts is None:
+                    continue
             nodes = {}
             for x in self._tree_nodes(t, facts):
                 nodes[x] = True
             if not nodes:
-                out.append((t, State(st.env, facts)))
+                out.append((t, State(st.env, facts)) + extra)
                 continue
             # outermost-first, deterministic: a node that is not inside another candidate's scrutinee / condition
             cand = sorted(nodes, key=lambda x: repr(_skey_of(x)))
@@ -1077,7 +1084,7 @@ class FnAnalysis:
                 nf2 = self._rewrite_facts(nf, mp)
                 if nf2 is None:
                     continue
-                work.append((rebuild(t, mp), State(st.env, nf2)))
+                work.append((rebuild(t, mp), State(st.env, nf2)) + extra)
         return out
 
     def _tree_nodes(self, t, facts):
@@ -1094,12 +1101,12 @@ class FnAnalysis:
                         if x.op in ("mterm", "ite"):
                             yield x
 
-    def _rewrite_facts(self, facts, mp):
+    def _rewrite_facts(self, facts, mp, force=False):
         """facts with the sub-terms in mp replaced; var facts are re-based; None when a fact became false"""
         from .terms import rebuild
         out = set()
         for f in facts:
-            if not any(isinstance(y, Term) and y.has_tree() for y in f[1:]):
+            if f[0] == "sel" or not (force or any(isinstance(y, Term) and y.has_tree() for y in f[1:])):
                 out.add(f)
                 continue
             g = (f[0],) + tuple(rebuild(y, mp) if isinstance(y, Term) else y for y in f[1:])
